@@ -173,10 +173,7 @@ def _on_alarm(signum, frame):
     raise _Timeout()
 
 
-def real_run(case, enc="endtime", timeout=30.0):
-    """-> {"calls": [(start, end, [ids per dep], [distinct (start,end) of the merged inputs])], "out": None|code}
-    A run that yields more results than there are input chunks, or does not finish within `timeout` seconds
-    (a normal run takes about a millisecond), is reported as RUNAWAY."""
+def _run_once(case, enc, cpu_limit):
     import signal
     import threading
     p = make_plugin(case)
@@ -186,8 +183,9 @@ def real_run(case, enc="endtime", timeout=30.0):
     n = 0
     guard = threading.current_thread() is threading.main_thread()
     if guard:
-        old = signal.signal(signal.SIGALRM, _on_alarm)
-        signal.setitimer(signal.ITIMER_REAL, timeout)
+        # CPU time of this process (user + system), not wall-clock: independent of machine load
+        old = signal.signal(signal.SIGPROF, _on_alarm)
+        signal.setitimer(signal.ITIMER_PROF, cpu_limit)
     try:
         try:
             for _res in p.iter(iters):
@@ -201,9 +199,29 @@ def real_run(case, enc="endtime", timeout=30.0):
             out = err_code(e)
     finally:
         if guard:
-            signal.setitimer(signal.ITIMER_REAL, 0)
-            signal.signal(signal.SIGALRM, old)
+            signal.setitimer(signal.ITIMER_PROF, 0)
+            signal.signal(signal.SIGPROF, old)
     return {"calls": p.calls, "out": out}
+
+
+def real_run(case, enc="endtime", timeout=20.0):
+    """-> {"calls": [(start, end, [ids per dep], [distinct (start,end) of the merged inputs])], "out": None|code}
+    A run that yields more results than there are input chunks, or burns more than `timeout` seconds of CPU
+    (a normal run takes about a millisecond), is reported as RUNAWAY -- after a second run with twice the
+    budget confirmed it."""
+    r = _run_once(case, enc, timeout)
+    if r["out"] == "RUNAWAY":
+        r = _run_once(case, enc, 2 * timeout)
+    return r
+
+
+def warm_up():
+    """compile the numba kernel split_array for every row dtype the harness uses, once, before forking workers"""
+    for enc in ("endtime", "length"):
+        for i in range(4):
+            c = real_chunk(achunk(0, 9, [(0, 3, 100 * i, 0), (2, 6, 100 * i + 1, 0), (7, 8, 100 * i + 2, 0)], i, 0), enc)
+            for t in (1, 5, 7):
+                c.split(t, allow_early_split=True)
 
 
 def fmt_real(r):
@@ -227,8 +245,6 @@ def run_real_parallel(cases):
     if len(cases) < 400:
         return _worker(idx_cases)
     import multiprocessing as mp
-    # compile numba code once before forking
-    real_run(mk_case([0, 1], 3, [[(0, 4, [(0, 3, 0, 0)])], [(0, 4, [(1, 2, 100, 0)])]]))
     nproc = min(16, os.cpu_count() or 4)
     size = max(50, min(500, len(cases) // (nproc * 4) + 1))
     batches = [idx_cases[i:i + size] for i in range(0, len(idx_cases), size)]
@@ -807,8 +823,10 @@ class Sink:
             reason = predicates(case, r, mp)
             if reason:
                 if self.bad <= 6:
-                    small = shrink(case, lambda c: predicates(c, real_run(c, timeout=3.0), mp) is not None)
-                    r2 = real_run(small, timeout=3.0)
+                    small = shrink(case, lambda c: predicates(c, real_run(c, timeout=5.0), mp) is not None)
+                    r2 = real_run(small, timeout=5.0)
+                    if predicates(small, r2, mp) is None:      # never report a case that does not fail on re-run
+                        small, r2 = case, r
                     ctx.violation("iter", "Plugin.iter violates C08: %s (implementation: %s)"
                                   % (predicates(small, r2, mp), fmt_real(r2)),
                                   {"input": show_case(small), "impl": fmt_real(r2), "unit": "iter",
@@ -818,26 +836,26 @@ class Sink:
                 self.n_disagree += 1
                 if self.bad <= 6:
                     def disagree(c):
-                        return fmt_real(real_run(c, timeout=3.0)) != lib.run_model("C08", [enc_case(c)])[0]
+                        return fmt_real(real_run(c, timeout=5.0)) != lib.run_model("C08", [enc_case(c)])[0]
                     small = shrink(case, disagree)
                     found = None
                     for nb in neighbourhood(small):      # search for a failing input around the disagreement
-                        rr = real_run(nb, timeout=3.0)
+                        rr = real_run(nb, timeout=5.0)
                         why = predicates(nb, rr, mp)
                         if why:
                             found = (nb, rr, why)
                             break
                     if found:
                         nb, rr, why = found
-                        nb = shrink(nb, lambda c: predicates(c, real_run(c, timeout=3.0), mp) is not None)
-                        rr = real_run(nb, timeout=3.0)
+                        nb = shrink(nb, lambda c: predicates(c, real_run(c, timeout=5.0), mp) is not None)
+                        rr = real_run(nb, timeout=5.0)
                         ctx.violation("iter", "Plugin.iter violates C08: %s (implementation: %s)"
                                       % (predicates(nb, rr, mp), fmt_real(rr)),
                                       {"input": show_case(nb), "impl": fmt_real(rr), "unit": "iter"})
                     else:
                         ctx.violation("iter", "model/implementation disagree on Plugin.iter (impl `%s`, model `%s`); "
                                       "the property predicates hold on this input and its neighbourhood"
-                                      % (fmt_real(real_run(small, timeout=3.0)), lib.run_model("C08", [enc_case(small)])[0]),
+                                      % (fmt_real(real_run(small, timeout=5.0)), lib.run_model("C08", [enc_case(small)])[0]),
                                       {"input": "corr:C08/iter", "case": show_case(small), "unit": "iter"},
                                       no_failing_input=True)
                 self.bad += 1
@@ -870,6 +888,7 @@ def run(ctx):
         "save_when enters as max over provided data types of int(save_when)",
     ]
     mp = max_passes_now()
+    warm_up()
     sink = Sink(ctx, mp)
     # corpus (minimised past disagreements) first
     corpus_dir = os.path.join(lib.VERIF, "corpus", "C08")
